@@ -24,7 +24,6 @@ import (
 	"github.com/drand/drand/v2/internal/chain"
 	"github.com/drand/drand/v2/internal/core"
 	dnet "github.com/drand/drand/v2/internal/net"
-	"github.com/drand/drand/v2/internal/test"
 	pdkg "github.com/drand/drand/v2/protobuf/dkg"
 	proto "github.com/drand/drand/v2/protobuf/drand"
 	"github.com/drand/drand/v2/verifharness/fix"
@@ -51,6 +50,8 @@ type Spec struct {
 	// IdentityAddr is the address in the daemon's identities (default: Addr). A fixed value makes the key material of
 	// daemons listening on different ports identical.
 	IdentityAddr string `json:"identity_addr"`
+	// Label distinguishes the key material of the fresh chains of several daemons
+	Label string `json:"label"`
 	// Members are the other members of chains of kind "group"
 	Members []Member `json:"members"`
 	// DkgPhaseS is the DKG phase timeout in seconds (default 2)
@@ -114,7 +115,7 @@ func MaybeChild() {
 			}
 		case "fresh":
 			sch, _ := crypto.SchemeFromName(cs.Scheme)
-			kp := fix.DetKeyPair("bench/"+cs.ID+"/"+cs.Scheme, sp.identity(), sch)
+			kp := fix.DetKeyPair("bench/"+sp.Label+cs.ID+"/"+cs.Scheme, sp.identity(), sch)
 			if err := key.NewFileStore(conf.ConfigFolderMB(), cs.ID).SaveKeyPair(kp); err != nil {
 				fmt.Println("CHILD-ERROR", err)
 				os.Exit(3)
@@ -156,16 +157,21 @@ type Child struct {
 
 // NewSpec picks free ports.
 func NewSpec(dir string, chains []ChainSpec, periodS int) Spec {
-	return Spec{Dir: dir, Addr: "127.0.0.1:" + test.FreePort(), PubAddr: "127.0.0.1:" + test.FreePort(), CtrlPort: test.FreePort(), Chains: chains,
+	return Spec{Dir: dir, Addr: "127.0.0.1:" + FreePort(), PubAddr: "127.0.0.1:" + FreePort(), CtrlPort: FreePort(), Chains: chains,
 		PeriodS: periodS, Genesis: time.Now().Unix() - 2, Storage: "bolt"}
 }
 
 // StartChild runs the daemon in a child process of this binary (optionally under a wrapper such as strace).
 func StartChild(sp Spec, wrapper ...string) (*Child, error) {
+	return StartChildEnv(sp, nil, wrapper...)
+}
+
+// StartChildEnv is StartChild with extra environment variables for the daemon process.
+func StartChildEnv(sp Spec, env []string, wrapper ...string) (*Child, error) {
 	js, _ := json.Marshal(sp)
 	argv := append(append([]string{}, wrapper...), os.Args[0])
 	cmd := exec.Command(argv[0], argv[1:]...)
-	cmd.Env = append(os.Environ(), childEnv+"="+string(js))
+	cmd.Env = append(append(os.Environ(), childEnv+"="+string(js)), env...)
 	cmd.Stderr = os.Stderr
 	if f, err := os.Create(sp.Dir + "/stderr.log"); err == nil {
 		cmd.Stderr = f // a panic of the daemon ends up here
